@@ -170,10 +170,8 @@ where
     }
 
     pub fn remove_all(&mut self, x: A) {
-        if x.as_usize() >= self.data.len() {
-            if let Some(values) = self.data.get_mut(x.as_usize()) {
-                values.clear();
-            }
+        if let Some(values) = self.data.get_mut(x.as_usize()) {
+            values.clear();
         }
     }
 
@@ -404,8 +402,9 @@ where
 
     /// Remove a relation from the map
     pub fn remove_all(&mut self, x: A) {
-        if x.as_usize() >= self.data.len() {
-            self.data.remove(x.as_usize());
+        //(the entry is emptied rather than taken out of the vector, which would shift all later handles)
+        if let Some(map) = self.data.get_mut(x.as_usize()) {
+            *map = RelationMap::default();
         }
     }
 
